@@ -1130,6 +1130,11 @@ func (e *Evaluator) evalPatternRules(patternRules []*Rule) error {
 }
 
 func (e *Evaluator) GetRootJson() (string, error) {
+	if e.root == nil {
+		// no JSON value was read: empty input, or the run ended before the
+		// first one
+		return "null", nil
+	}
 	val, err := e.root.Value.ToGoValue()
 	if err != nil {
 		return "", err
